@@ -307,6 +307,6 @@ def run_case(case, rec, ctx):
 
 META = {
     "technique": "runtime post-conditions on (Non)RelativisticPVector.formulate: structural scan of the returned expression tree for foreign phase-space factors / L / radius, and numeric residual of the K-matrix equation with K, P, rho taken from the library's own parametrization methods for the caller's arguments",
-    "level_text": "Each formulate() call of the workload (n_channels 1..2 quick / ..3 thorough, n_poles 1..3, all five PhaseSpaceFactorProtocol implementations, L 0..2/4, numeric and symbolic radius, return_f_hat on/off) is judged structurally and by the residual |(1-iK-hat rho)F-hat - P| at 12 s-values on a random parameter set with complex beta; the one-channel one-pole reductions to relativistic_breit_wigner(_with_ff) are evaluated for all phase-space factors and L 0..2.",
+    "level_text": "Each formulate() call of the workload (n_channels 1..2 quick / ..3 thorough, n_poles 1..3, all five PhaseSpaceFactorProtocol implementations, L 0..2/4, numeric and symbolic radius, return_f_hat on/off) is judged structurally and by the residual |(1-iK-hat rho)F-hat - P| at 12 s-values on a random parameter set with complex beta; the one-channel one-pole reductions to relativistic_breit_wigner(_with_ff) are evaluated for all phase-space factors and L 0..2. Also: the width inside K against its definition with the caller's phase-space factor, phase-space factors given as look-alike lambdas/closures, and call histories with the same n_channels.",
     "level_note": "The reference K, P are ampform's own parametrization methods (the statement says so); numpy solves nothing, only the residual is computed. 3-channel cases thorough only and only for the non-relativistic P-vector: RelativisticPVector.formulate(3, ...) does not return within 50 minutes on this machine, so that configuration is not explored.",
 }
